@@ -36,13 +36,27 @@ META = {
             "every sleeper on the word).",
 }
 
-PUSH = "PpNnXH"
-POP = "OoMmUYD"
+PUSH = "PpNnXHh"
+POP = "OoMmUYDg"
 
 
 # ----------------------------------------------------------------------------------------- program generators
-def tok(kind, c, w, k, arg=None, tmo=None):
-    s = "%s%d%d%d" % (kind, c, w, k)
+# public overloads per op kind (letter after the flags; none = callback overload with template arguments):
+# v value / reference, q pointer, i iterators, d / e / r / j = callback / value / pointer / iterators without template arguments
+ENTRIES = {"P": "vde", "O": "vqder", "p": "v", "o": "vde", "N": "idj", "M": "idj"}
+
+
+def pick_entry(rng, kind, c, w, k):
+    opts = ["", ""]
+    for e in ENTRIES.get(kind, ""):
+        if e in "derj" and not ((c == 1 and k == 1) if kind in "po" else (c, w, k) == (1, 1, 1)):
+            continue    # the overloads without template arguments mean <true, true, true> (try_: <true, true>)
+        opts.append(e)
+    return rng.choice(opts)
+
+
+def tok(kind, c, w, k, arg=None, tmo=None, entry=""):
+    s = "%s%d%d%d%s" % (kind, c, w, k, entry)
     if arg is not None:
         s += ":" + (";".join(str(x) for x in arg) if isinstance(arg, list) else str(arg))
     if tmo is not None:
@@ -76,6 +90,7 @@ def assign_flags(rng, threads, force=None):
     side_conc = {r: (1 if nside[r] > 1 else None) for r in (True, False)}
     if has_until and nside[False] > 1:
         raise ValueError("timed pop needs a single consumer thread")
+    mix = rng.chance(2, 5)      # call the queue through all public overloads, not only the callback ones
     out = []
     for th in threads:
         ops = []
@@ -89,7 +104,7 @@ def assign_flags(rng, threads, force=None):
             w = (1 if force == "futex" else rng.below(2)) if all_wake[not role] else 0
             if force == "spin":
                 w = 0
-            ops.append(tok(kind, c, w, k, arg, tmo))
+            ops.append(tok(kind, c, w, k, arg, tmo, pick_entry(rng, kind, c, w, k) if mix else ""))
         out.append(ops)
     return out
 
@@ -127,8 +142,8 @@ def gen_small(rng):
 
 def gen_big(rng, focus):
     """bigger programs, monitors only; constructed so that no legitimate execution blocks for good."""
-    mode = rng.choice(["block", "block", "block", "trymix", "timed", "comp"] if focus == "C01"
-                      else ["block", "block", "block", "block", "timed", "timed", "trymix"])
+    mode = rng.choice(["block", "block", "block", "trymix", "timed", "comp", "parked", "parked"] if focus == "C01"
+                      else ["block", "block", "block", "block", "timed", "timed", "trymix", "parked"])
     k = rng.choice([0, 1, 1, 2, 2, 3]) if focus == "C01" else rng.choice([0, 0, 1, 1, 2])
     cap = 1 << k
     v = Vals()
@@ -206,6 +221,31 @@ def gen_big(rng, focus):
             th.append(("U", n, rng.below(4) if hole else rng.below(3)))
         th.append(("D", None, None))
         threads.append(th)
+    elif mode == "parked":
+        # non-concurrent batch try_ calls that wrap the ring while a counterpart stays inside its callback on a slot
+        # (g / h: retried try_pop / try_push whose callback does not return before the other side's threads are done),
+        # so that slots are released out of ticket order; nothing blocks, conservation is judged at quiescence
+        k = rng.choice([1, 1, 2, 2, 3])
+        cap = 1 << k
+        wk = rng.below(2)
+        if rng.chance(2, 3):    # exclusive producer, try_push_n<false> across the round end; parked consumers + a drainer
+            th = [tok("n", 0, 0, wk, v.take(cap))]
+            for _ in range(2 + rng.below(4)):
+                if rng.chance(1, 3):
+                    th.append(tok("p", 0, 0, wk, v.take(1)))
+                else:
+                    th.append(tok("n", 0, 0, wk, v.take(2 + rng.below(cap - 1))))
+            out = [th] + [[tok("g", 1, 0, wk)] for _ in range(1 + rng.below(2))] + [[tok("D", 1, 0, wk)]]
+        else:                   # exclusive consumer, try_pop_n<false> across the round end; parked + fast producers
+            fast = []
+            for _ in range(2 + rng.below(3)):
+                n = 1 + rng.below(cap)
+                fast.append(tok("p", 1, 0, wk, v.take(1)) if n == 1 else tok("n", 1, 0, wk, v.take(n)))
+            cons = []
+            for _ in range(3 + rng.below(4)):
+                cons.append(tok("o", 0, 0, wk) if rng.chance(1, 3) else tok("m", 0, 0, wk, 2 + rng.below(cap - 1)))
+            out = [[tok("h", 1, 0, wk, v.take(1))] for _ in range(1 + rng.below(2))] + [fast, cons]
+        return k, out, True
     else:  # comp
         nt = 2 + rng.below(2)
         threads = []
@@ -248,6 +288,16 @@ AIMED_SMALL = [
     (1, "N011:1;2,P011:3|U001:2:1,U001:2:1"),
     (1, "P011:1|U001:1:2,o001"),
     (0, "P111:1|P111:2|O111|O111"),
+    # public overloads (value / pointer / iterator, with and without template arguments), asymmetric wait / wake flags:
+    # "producer spins but wakes sleeping consumers" and the converse
+    (1, "N101i:1;2|O110v,O110q"),
+    (1, "N101i:1;2,N101i:3;4|M110i:2,M110i:2"),
+    (1, "P101v:1,P101v:2|M110i:2"),
+    (0, "P110v:1,P110v:2|O001v,O001q"),
+    (1, "N110i:1;2|M001i:1,O001v"),
+    (1, "P111e:1,P111d:2,N111j:3;4|O111e,O111r,O111d,M111j:1"),
+    (1, "N111d:1;2|M111d:2"),
+    (0, "p101v:1,p101v:2|o111e,o111d,o101v"),
 ]
 
 
@@ -264,6 +314,20 @@ AIMED_BIG = [
     (2, "P111:1,H111:2|P111:3,P111:4,P111:5|U001:2:2,U001:3:3,D001"),
     (1, "H101:1|P101:2|U000:1:3,U000:1:0,D000"),
     (3, "H111:1|N111:2;3,N111:4;5;6|U001:4:3,U001:2:1,D001"),
+    # the asymmetric overload programs once more as "must not get stuck" (balanced, pairing rules satisfied as written)
+    (1, "N101i:1;2|O110v,O110q"),
+    (1, "N101i:1;2,N101i:3;4|M110i:2,M110i:2"),
+    (2, "N101i:1;2;3|M110i:2,O110q"),
+    (0, "P110v:1,P110v:2|O001v,O001q"),
+    (1, "N110i:1;2,N110i:3;4|M001i:1,O001v,M001i:2"),
+    # exclusive producer whose try_push_n wraps the ring while a consumer stays inside its callback (g) and a drainer
+    # keeps freeing the slots behind it; and the mirror image (h) for try_pop_n
+    (1, "n001:1;2,p001:3,n001:4;5,n001:6;7|g101|D101"),
+    (1, "n000:1;2,p000:3,n000:4;5,p000:6,n000:7;8|g100|D100"),
+    (2, "n001:1;2;3;4,p001:5,n001:6;7,p001:8,n001:9;10;11|g101|D101"),
+    (2, "n001:1;2;3;4,n001:5;6;7,n001:8;9,n001:10;11;12|g101|g101|D101"),
+    (1, "h101:9|n101:1;2,p101:3,n101:4;5|m001:2,o001,m001:2,m001:2"),
+    (2, "h101:9|n101:1;2;3,n101:4;5,p101:6|m001:3,m001:2,o001,m001:3,m001:2"),
 ]
 
 
@@ -358,7 +422,7 @@ def run(prop, argv, meta_focus):
     lines = []
     meta = {}
     for pid, k, th, small, nostuck in progs:
-        yields = any(o[0] in "DXYH" for t in th for o in t)
+        yields = any(o[0] in "DXYHgh" for t in th for o in t)
         for si, (seed, strat) in enumerate(scheds):
             if strat == 1 and yields:
                 strat = 3        # PCT is unfair to sched_yield loops (drain / compensating variants)
@@ -393,6 +457,12 @@ def run(prop, argv, meta_focus):
                 chk.broke("harness", "model driver", l[:300])
                 continue
             f = dict(x.split("=", 1) for x in l.split()[1:9])
+            if f.get("usage") == "true" and f.get("wrappers") != "true":
+                chk.violate("wrapper-flags", "a public overload does not hand on the template arguments it was given (or a core "
+                            "passes the wrong role / the three batch calls differ): the program satisfies the documented "
+                            "pairing rules as written, but not with the flags the overloads really forward: k=%s %s"
+                            % (l.split()[0], model_prog(dict((p[0], p[2]) for p in progs).get(pid, []))),
+                            {"level": "model", "program": model_prog(dict((p[0], p[2]) for p in progs).get(pid, []))})
             states += int(f.get("states", 0))
             trans += int(f.get("trans", 0))
             outs = set(l.split("outcomes=", 1)[1].split(";"))
